@@ -12,7 +12,7 @@ symbols c (amplitude: rho 1, sigma 2, tau 1, grad 1), N (nspin), e (energy densi
            SDMX rows, ModelWithNormalizer's rho/sigma/tau, rhocut / nspin, SEP baselines m / nspin)
  expnt     get_cider_exponent{,_gga}: the nspin=2 branch equals the nspin=1 branch evaluated at
            (2 rho, 4 sigma, 2 tau), term by term (literal 2**p typed as a symbol; two runs compared per '+')
- sep2      KernelEvalBase2._get_baseline (SEP): each ingredient of a spin channel is doubled as 2**deg and the
+ sep2      KernelEvalBase2 baseline path (SEP): each ingredient of a spin channel is doubled as 2**deg and the
            outputs are rescaled by 1/2 * 2**deg
  spin-mirror  get_sigma / get_dsigma (GGA correlation baseline): values stored into spin slot b are the a<->b
            mirror of those stored into slot a (sign flip for odd functions of zeta), the ab slot is invariant
@@ -187,7 +187,7 @@ def rule_semilocal(chk, cx):
             if c is None:
                 cx.nc += 1
                 continue
-            cx.want("amp", fw, where, r, "N", c, "feat[:, %d]" % k, PL, "_BaseSemilocalPlan._fill_feat_%s_" % mode, ln,
+            cx.want("amp", fw, where, r, "N", c, "feat[:, %d]" % k, PL, "SemilocalPlan.get_feat[mode=%s]" % mode, ln,
                     "nspin exponent must equal the amplitude degree of the row")
         vfeat = rows(1, {k: Q(E1 - v.deg) for k, v in feat.rows.items() if comp(v, "c") is not None})
         # SemilocalPlan.get_vxc
@@ -198,11 +198,11 @@ def rule_semilocal(chk, cx):
         want_rows = [0, 1, 2, 3] + ([4] if mgga else [])
         for k in want_rows:
             v = vxc.rows.get(k, Q(ANY))
-            cx.want("pair", bw, where + ".get_vxc", v, "N", 0, "vxc[:, %d]" % k, PL, "SemilocalPlan._fill_vxc_%s_" % mode, ln,
+            cx.want("pair", bw, where + ".get_vxc", v, "N", 0, "vxc[:, %d]" % k, PL, "SemilocalPlan.get_vxc[mode=%s]" % mode, ln,
                     "forward rows carry nspin**x, so the chain rule must multiply vfeat by nspin**x")
             if comp(v, "c") is not None:
                 cx.want("amp", bw, where + ".get_vxc", v, "c", -1, "vxc[:, %d]" % k, PL,
-                        "SemilocalPlan._fill_vxc_%s_" % mode, ln, "derivative with respect to a degree-1 ingredient")
+                        "SemilocalPlan.get_vxc[mode=%s]" % mode, ln, "derivative with respect to a degree-1 ingredient")
         # SemilocalPlan2.get_vxc
         plan2 = s.new(PL, "SemilocalPlan2", st, NSPIN)
         vrho, vsigma, vtau = Q(ANY), Q(ANY), Q(ANY)
@@ -252,12 +252,10 @@ def rule_nldf(chk, cx):
                    lst(pair(-1, 1), pair(1, 0), pair(-1, -1), pair(0, 0)), KS(["se_ar2"]), lst(th))
         n_l0, num_vj, n_dots = 3, 1, 4
         # the plan's bookkeeping attributes come from its own (abstractly executed) constructor
-        plan = s.new(PL, "NLDFAuxiliaryPlan", st, NSPIN, q(), sym("lambd"), sym("nalpha"), coef_order=K("qg"))
+        plan = s.new(PL, "NLDFAuxiliaryPlan", st, NSPIN, q(), sym("lambd"), num(4), coef_order=K("qg"),
+                     raise_large_expnt_error=K(False), use_smooth_expnt_cutoff=K(False))
         if not isinstance(plan, deg.Obj):
             raise core.AnalysisError("NLDFAuxiliaryPlan: constructor could not be interpreted")
-        plan.attrs["nalpha"] = num(4)
-        plan.attrs["_use_smooth_expnt_cutoff"] = K(False)
-        plan.attrs["_raise_large_expnt_error"] = K(False)
         nrow = 5 if level == "MGGA" else 4
         rho_data = rows(0, {i: q(c=1) for i in range(nrow)})
         where = "NLDFAuxiliaryPlan(%s,ij)" % level
@@ -426,29 +424,33 @@ def rule_baselines(chk, cx):
         d0 = d.rows.get(0) if isinstance(d, Q) and d.is_rows else d
         cx.want("pair", res, where, d0 if d0 is not None else Q(ANY), "N", comp(e, "N") if comp(e, "N") is not None else -1,
                 "dedx[0]", BL, fn.fdef.name, ln, "derivative carries the same 1/nspin as the value")
-    # KernelEvalBase._baseline, SEP branch
-    for rel, cname in ((XE, "KernelEvalBase"),):
-        base = reg.d.get("LDA_X")
-        obj = s.obj(rel, cname, mode=K("SEP"))
-        X3 = rows(1, {0: q(c=1)}, default=q())
-        X3.shape = Tup([NSPIN, q(), q()])
-        res = s.call(obj, "_baseline", [X3, base])
-        where = "%s._baseline(SEP)" % cname
-        cx.flush(res, where, "pair")
-        vals = deg.items_of(res.value)
-        ln = fline(s, rel, cname + "._baseline")
-        if vals is None or len(vals) != 2:
-            cx.nc += 1
-            chk.note("pair", where, "not comparable: %s" % fmt(res.value))
-            continue
+    # SEP multiplicative baseline of a mapped kernel, reached through the public path
+    # MappedDFTKernel(fevals, feature_list, mode, multiplicative_baseline).multiplicative_baseline(X0T);
+    # whatever private method evaluates the registered base function is followed by the interpreter
+    base = reg.d.get("LDA_X")
+    obj = s.new(XE, "MappedDFTKernel", lst(), Unk("feature_list"), K("SEP"), base)
+    if not isinstance(obj, deg.Obj):
+        raise core.AnalysisError("MappedDFTKernel: constructor could not be interpreted")
+    X3 = rows(1, {0: q(c=1)}, default=q())
+    X3.shape = Tup([NSPIN, q(), q()])
+    res = s.call(obj, "multiplicative_baseline", [X3])
+    where = "MappedDFTKernel(mode=SEP).multiplicative_baseline"
+    cx.flush(res, where, "pair")
+    vals = deg.items_of(res.value)
+    mfd = s.hooks.method_of(obj, "multiplicative_baseline").fdef
+    ln = mfd.lineno
+    m = dm = None
+    if vals is not None and len(vals) == 2:
         m, dm = vals
-        nm = comp(m, "N")
-        dm0 = dm.rows.get(0) if isinstance(dm, Q) and dm.is_rows else dm
-        if nm is None or comp(dm0, "N") is None:
-            cx.nc += 1
-            chk.note("pair", where, "not comparable: %s" % fmt(res.value))
-            continue
-        cx.want("pair", res, where, dm0, "N", nm, "dm", rel, cname + "._baseline", ln,
+    nm = comp(m, "N") if m is not None else None
+    dm0 = (dm.rows.get(0) if isinstance(dm, Q) and dm.is_rows else dm) if dm is not None else None
+    if nm is None or dm0 is None or comp(dm0, "N") is None:
+        cx.nc += 1
+        chk.note("pair", where, "not comparable: %s" % fmt(res.value))
+    else:
+        cx.want("amp", res, where, m, "N", -1, "m", XE, "KernelEvalBase.multiplicative_baseline", ln,
+                "SEP: each channel contributes base(2 n_s)/nspin")
+        cx.want("pair", res, where, dm0, "N", nm, "dm", XE, "KernelEvalBase.multiplicative_baseline", ln,
                 "value and derivative of the SEP baseline carry the same nspin factor")
 
 
@@ -513,11 +515,10 @@ def rule_rhocut(chk, cx):
     for level in ("MGGA", "GGA"):
         th = lst(*[sym("th%d" % i) for i in range(3 if level == "MGGA" else 2)])
         st = s0.new(ST, "NLDFSettingsVJ", K(level), th, K("one"), KS(["se"]), lst(th))
-        plan = s0.new(PL, "NLDFAuxiliaryPlan", st, NSPIN, q(), sym("lambd"), sym("nalpha"), rhocut=q(c=1))
+        plan = s0.new(PL, "NLDFAuxiliaryPlan", st, NSPIN, q(), sym("lambd"), num(4), rhocut=q(c=1),
+                      raise_large_expnt_error=K(False), use_smooth_expnt_cutoff=K(False))
         if not isinstance(plan, deg.Obj):
             raise core.AnalysisError("NLDFAuxiliaryPlan: constructor could not be interpreted")
-        plan.attrs["_use_smooth_expnt_cutoff"] = K(False)
-        plan.attrs["_raise_large_expnt_error"] = K(False)
         s0.eng.call_observers = [ob]
         n0 = len(seen)
         rt = Tup([q(c=1), q(c=2)] + ([q(c=1)] if level == "MGGA" else []))
@@ -770,28 +771,32 @@ def _factor_times(expr, root_ok):
 
 
 def rule_sep2(chk, cx):
-    """KernelEvalBase2._get_baseline, SEP branch: E = 1/2 sum_s E[2 n_s]: ingredient k is doubled as 2**deg_k
+    """KernelEvalBase2.multiplicative/additive_baseline and the helpers they delegate to, SEP branch: E = 1/2 sum_s E[2 n_s]: ingredient k is doubled as 2**deg_k
     (rho 1, sigma 2, tau 1) and the outputs are rescaled by 2**(-1) (energy) and 2**(deg_k - 1) (potentials)."""
     tree = chk.tree
     mod = tree.py(XE2)
-    fn = cname = cls = None
+    # public entry points: the class that defines multiplicative_baseline / additive_baseline on a rho tuple
+    cname = cls = None
+    roots = []
     for c in mod.body:
         if isinstance(c, ast.ClassDef):
-            for m in c.body:
-                if isinstance(m, ast.FunctionDef) and m.name == "_get_baseline":
-                    fn, cname, cls = m, c.name, c
-    if fn is None:
-        raise core.AnalysisError("_get_baseline vanished from %s" % XE2)
+            ms = pf.methods(c)
+            pub = [ms[k] for k in ("multiplicative_baseline", "additive_baseline") if k in ms]
+            if pub and cls is None:
+                cname, cls, roots = c.name, c, pub
+    if cls is None:
+        raise core.AnalysisError("no class with multiplicative_baseline/additive_baseline in %s" % XE2)
+    fn = roots[0]
     # the anchored method plus the helpers it (transitively, two levels) delegates to
     top = {f.name: f for f in mod.body if isinstance(f, ast.FunctionDef)}
     meths = pf.methods(cls)
-    todo, funcs = [(fn, 0)], []
+    todo, funcs = [(r, 0) for r in roots], []
     while todo:
         f, d = todo.pop()
         if any(f is g for g in funcs):
             continue
         funcs.append(f)
-        if d >= 2:
+        if d >= 3:
             continue
         for n in ast.walk(f):
             if isinstance(n, ast.Call):
@@ -806,7 +811,7 @@ def rule_sep2(chk, cx):
     in_deg = {0: 1, 1: 2, 2: 1}
     out_deg = {0: -1, 1: 0, 2: 1, 3: 0}
     n_in = n_out = 0
-    qn = "%s._get_baseline" % cname
+    qn = "%s.multiplicative_baseline (SEP)" % cname
     for f in funcs:
         params = {a.arg for a in f.args.args}
         fq = pf.qualname(f)
